@@ -228,7 +228,9 @@ impl CanonicalAssets {
     }
 
     pub fn is_only_naked(&self) -> bool {
-        self.iter().all(|(x, _)| x.is_naked())
+        // an entry with amount zero is no entry at all
+        self.iter()
+            .all(|(class, amount)| *amount == 0 || class.is_naked())
     }
 
     /// Adds two values, returning `None` if any amount overflows.
